@@ -669,9 +669,9 @@ func init() {
 			r.Assume = append(r.Assume, "mcbor (independent CBOR reader) and encoding/json are correct", "values outside the generator's alphabets are not covered")
 		}
 	}
-	Checks["C09"] = mk("C09", 3, 5, "valid claims-sets (choice vectors over optional subsets, hash sizes, 1..4 components, text classes incl. non-ASCII / control / invalid UTF-8) built 4 ways; decode(encode(x)) compared getter by getter, re-encoding bytewise; plus every decodable token of C04's enumeration (part b); distinct = distinct (construction, abstract claims-set) or token bytes; non-trivial = all but the minimal baselines")
-	Checks["C10"] = mk("C10", 3, 5, "same valid claims-sets, setter-built / literal / decoded / decoded from odd wire forms; the emitted CBOR is parsed by mcbor and compared key by key with the profile's wire format; distinct as in C09")
-	Checks["C12"] = mk("C12", 3, 5, "same valid claims-sets restricted to valid UTF-8; JSON round trip through the dispatching decoder, cbor->claims->json->claims->cbor byte equality, member names/base64/omission read back with encoding/json")
+	Checks["C09"] = mk("C09", 3, 4, "valid claims-sets (choice vectors over optional subsets, hash sizes, 1..4 components, text classes incl. non-ASCII / control / invalid UTF-8) built 4 ways; decode(encode(x)) compared getter by getter, re-encoding bytewise; plus every decodable token of C04's enumeration (part b); distinct = distinct (construction, abstract claims-set) or token bytes; non-trivial = all but the minimal baselines")
+	Checks["C10"] = mk("C10", 3, 4, "same valid claims-sets, setter-built / literal / decoded / decoded from odd wire forms; the emitted CBOR is parsed by mcbor and compared key by key with the profile's wire format; distinct as in C09")
+	Checks["C12"] = mk("C12", 3, 4, "same valid claims-sets restricted to valid UTF-8; JSON round trip through the dispatching decoder, cbor->claims->json->claims->cbor byte equality, member names/base64/omission read back with encoding/json")
 	_ = base64.StdEncoding
 	_ = sort.Strings
 }
